@@ -24,7 +24,7 @@ func constInt(v ssa.Value) (int64, bool) {
 }
 
 func checkC12(w *World, r *Report) {
-	r.Decides = "C12 is decided in its structural part only: (a) encoder and decoder agree on the layout: a header of keyHeaderLen bytes whose version byte sits at the same position on both sides, one type byte at offset 0 of the body, the key from offset 1; (b) user bytes pass verbatim: the encoder uses the key only as the source of a copy into a freshly sized buffer, the decoder returns a sub-slice of its input; (c) constant prefix per key space: only the version byte of the header is ever stored, user and system type constants are distinct and ordered user < system, bookkeeping key names are non-empty and start with a byte > 0; (d) range bounds and bookkeeping keys go through the same encoder (the obligations C01.f/g). Injectivity, round trip and order preservation then follow from the lemma 'k -> c ++ k is injective and monotone for a fixed c', which is mathematics and the stated assumption."
+	r.Decides = "C12 is decided in its structural part only: (a) encoder and decoder agree on the layout: a header of keyHeaderLen bytes whose version byte sits at the same position on both sides, one type byte at offset 0 of the body, the key from offset 1; (b) user bytes pass verbatim: the encoder uses the key only as the source of a copy into a freshly sized buffer, the decoder returns a sub-slice of its input; (c) constant prefix per key space: only the version byte of the header is ever stored, user and system type constants are distinct and ordered user < system, bookkeeping key names are non-empty and start with a byte > 0; (d) range bounds and bookkeeping keys go through the same encoder (the obligations C01.f/g), and a reused buffer is reset before the next key is encoded into it; (e) the export walks the whole key space unbounded and selects by the decoded key type (C07.d) - a bound computed from a 'minimum key' constant is a statement about byte order that does not hold for shorter keys. Injectivity, round trip and order preservation then follow from the lemma 'k -> c ++ k is injective and monotone for a fixed c', which is mathematics and the stated assumption."
 	r.NotDecided = []string{"the arithmetic of the wildcard bound increment", "keys longer than the streaming Decoder's body limit (the unused Decoder would truncate them; DecodeBytes does not)"}
 	r.Assume = []string{"lemma: prefixing with a constant is injective and order preserving under bytewise comparison"}
 	c12Layout(w, r, "C12", ".a", ".b", ".c")
@@ -33,6 +33,8 @@ func checkC12(w *World, r *Report) {
 		c01KeySpace(w, r, a, "C12.d1", "d1-key-space")
 		c01Bounds(w, r, a, "C12.d2", "d2-bounds-same-encoder")
 	}
+	c12BufferReuse(w, r, "C12.d3", "d3-encode-into-empty-buffer")
+	c07UserPairs(w, r, "C12.e", "e-export-covers-key-space")
 }
 
 // c12Layout: the obligations C12.a-c (layout agreement, verbatim bytes, constant prefix), shared
@@ -61,7 +63,7 @@ func c12Layout(w *World, r *Report, pfx, ida, idb, idc string) {
 	obA := r.Ob(pfx+ida, "a-layout-agreement", "Encoder.Encode writes a [keyHeaderLen]byte header with the version stored at keyVersionHeaderPos, then the v1 body: a buffer of 1+len(key) bytes with the type at index 0 and the key copied from index 1; DecodeBytes tests the version at keyVersionHeaderPos, strips keyHeaderLen bytes, and the raw v1 decoder takes the type from index 0 and the key from index 1", "a width or offset that differs on one side shifts every decoded key by a byte: keys collide or lose their first byte")
 	obB := r.Ob(pfx+idb, "b-verbatim-bytes", "in the v1 encoder the key field is used only as len() argument and as source of copy into the fresh buffer, which is written as a whole; the decoders return sub-slices of their input without element stores", "any transformation of key bytes must be undone exactly and preserve order - there is none to check if bytes are copied verbatim")
 	obC := r.Ob(pfx+idc, "c-constant-prefix", "the only store into the header array is the version byte; TypeUser != TypeSystem and TypeUser < TypeSystem; every bookkeeping key of the state machine is built from a non-empty name whose first byte is > 0", "a varying prefix breaks order preservation; bookkeeping names starting with a zero byte would sort into the range the wildcard addresses")
-	if enc == nil || encV1 == nil || dec == nil || decV1 == nil || hdrLen < 0 {
+	if enc == nil || encV1 == nil || dec == nil || hdrLen < 0 {
 		obA.Undecided("anchor", "encoder/decoder functions or layout constants not found")
 		return
 	}
@@ -220,6 +222,7 @@ func c12Layout(w *World, r *Report, pfx, ida, idb, idc string) {
 	// ---- decoders ----
 	{
 		stripped := false
+		var bodyInDec ssa.Value // the stripped body, when the raw v1 decoder is written out in DecodeBytes itself
 		eachInstr(dec, func(in ssa.Instruction) {
 			switch x := in.(type) {
 			case *ssa.Slice:
@@ -230,6 +233,7 @@ func c12Layout(w *World, r *Report, pfx, ida, idb, idc string) {
 						obA.Violate("decoder-strip-width", x.Pos(), "DecodeBytes strips `"+Expr(x.Low)+"` bytes, the encoder writes a header of "+itoa(int(hdrLen)))
 					} else {
 						stripped = true
+						bodyInDec = x
 					}
 				}
 			case *ssa.IndexAddr:
@@ -255,23 +259,39 @@ func c12Layout(w *World, r *Report, pfx, ida, idb, idc string) {
 				if fa, ok := st.Addr.(*ssa.FieldAddr); ok && fieldAddrName(fa) == "Key" && typeIs(fa.X.Type(), keyPath, "Key") {
 					e := Expr(st.Val)
 					obB.Site(st.Pos(), "DecodeBytes Key = "+e)
-					if !strings.Contains(e, "v1DecodeRaw(") || !strings.HasSuffix(e, ".key") {
+					viaRaw := strings.Contains(e, "v1DecodeRaw(") && strings.HasSuffix(e, ".key")
+					inline := false
+					if sl, ok := st.Val.(*ssa.Slice); ok && decV1 == nil && bodyInDec != nil && sl.X == bodyInDec && sl.High == nil {
+						inline = true
+					}
+					if !viaRaw && !inline {
 						obB.Violate("decoder-key-source", st.Pos(), "DecodeBytes returns key `"+e+"`")
 					}
 				}
 			}
 		})
 		typeAt, keyFrom := int64(-1), int64(-1)
-		eachInstr(decV1, func(in ssa.Instruction) {
+		rawFn, rawBody := decV1, ssa.Value(nil)
+		if decV1 != nil {
+			rawBody = decV1.Params[0]
+		} else {
+			rawFn, rawBody = dec, bodyInDec
+		}
+		if rawBody == nil {
+			obA.Undecided("anchor/raw-decoder", "no raw v1 decoder and no stripped body in DecodeBytes")
+			return
+		}
+		decV1 = rawFn
+		eachInstr(rawFn, func(in ssa.Instruction) {
 			switch x := in.(type) {
 			case *ssa.IndexAddr:
-				if x.X == ssa.Value(decV1.Params[0]) {
+				if x.X == rawBody {
 					if idx, isC := constInt(x.Index); isC {
 						typeAt = idx
 					}
 				}
 			case *ssa.Slice:
-				if x.X == ssa.Value(decV1.Params[0]) && x.High == nil {
+				if x.X == rawBody && x.High == nil {
 					if lo, isC := constInt(x.Low); isC {
 						keyFrom = lo
 					}
@@ -311,4 +331,97 @@ func c12Layout(w *World, r *Report, pfx, ida, idb, idc string) {
 	obA.NeedFloor(6)
 	obB.NeedFloor(3)
 	obC.NeedFloor(4)
+}
+
+// c12BufferReuse: a key is encoded into an empty buffer. A pooled buffer that is reused - captured
+// by a closure that runs once per predicate, or obtained before a loop that encodes into it - must
+// be reset on every way from the encode to the next use; otherwise the second key is appended to
+// the first and the stored key addressed is the concatenation: another user key.
+func c12BufferReuse(w *World, r *Report, id, slug string) {
+	ob := r.Ob(id, slug, "in the state-machine package, wherever the user-key encoder writes into a buffer that outlives the encode - a captured variable of a closure, or a buffer obtained before the loop the encode sits in - every path from the encode to a point from which the encode can run again (a return of the closure other than an error / `false` return; the loop's back edge) crosses Reset or Truncate(0) of that buffer", "enc(k1) followed by enc(k2) in one buffer is the encoding of neither: the comparison, read or write addresses a different stored key (injectivity is lost at the call site, not in the encoder)")
+	sp := w.SSAPkg(fsmRel)
+	enc := w.Func(fsmRel, "encodeUserKey")
+	if sp == nil || enc == nil {
+		ob.Undecided("anchor", "user-key encoder not found")
+		return
+	}
+	root := func(v ssa.Value) ssa.Value {
+		for d := 0; d < 6; d++ {
+			switch x := v.(type) {
+			case *ssa.MakeInterface:
+				v = x.X
+			case *ssa.ChangeInterface:
+				v = x.X
+			case *ssa.UnOp:
+				// load of a captured variable or of a local
+				v = x.X
+			default:
+				return v
+			}
+		}
+		return v
+	}
+	isReset := func(buf ssa.Value) func(ssa.Instruction) bool {
+		return func(in ssa.Instruction) bool {
+			c := callOf(in)
+			if c == nil {
+				return false
+			}
+			n := CalleeName(c)
+			if n != "(*bytes.Buffer).Reset" && n != "(*bytes.Buffer).Truncate" {
+				return false
+			}
+			return root(c.Args[0]) == buf
+		}
+	}
+	n := 0
+	for _, fn := range w.ModFuncs() {
+		if !isFsmFunc(fn) || isGenerated(fn) {
+			continue
+		}
+		eachInstr(fn, func(in ssa.Instruction) {
+			c := plainCall(in)
+			if c == nil || StaticCallee(c) != enc {
+				return
+			}
+			buf := root(c.Args[0])
+			n++
+			switch b := buf.(type) {
+			case *ssa.FreeVar:
+				ob.Site(in.Pos(), "encode into the captured buffer "+b.Name()+" in "+FnName(fn))
+				// returns after which the closure may run again: not an error return, not `false`
+				tgt := func(x ssa.Instruction) bool {
+					ret, ok := x.(*ssa.Return)
+					if !ok || isErrorReturn(ret) {
+						return false
+					}
+					if len(ret.Results) > 0 && isConstBool(retVal(ret, 0), false) {
+						return false
+					}
+					return true
+				}
+				if p := (&Walk{Barrier: isReset(buf), Target: tgt}).Find(after(in)); p != nil {
+					ob.Violate("encode-buffer-not-reset@"+FnName(fn), in.Pos(), "the closure can return (other than with an error or false) with the captured buffer still holding the encoded key: the next key is appended to it", w.PathString(p)...)
+				}
+			default:
+				// obtained in this function: a problem only if obtained before a loop the encode is in
+				h, body := loopOf(in.Block())
+				if h == nil {
+					return
+				}
+				def, ok := buf.(ssa.Instruction)
+				if ok && def.Block() != nil && body[def.Block()] {
+					return // a fresh buffer per iteration
+				}
+				ob.Site(in.Pos(), "encode inside a loop into a buffer obtained before it in "+FnName(fn))
+				if p := (&Walk{Barrier: isReset(buf), Target: func(x ssa.Instruction) bool { return x.Block() == h && x == h.Instrs[0] }, EdgeOK: func(bb *ssa.BasicBlock, k int) bool { return body[bb.Succs[k]] }}).Find(after(in)); p != nil {
+					ob.Violate("encode-buffer-not-reset@"+FnName(fn), in.Pos(), "the loop can come round again with the buffer still holding the encoded key: the next key is appended to it", w.PathString(p)...)
+				}
+			}
+		})
+	}
+	if n == 0 {
+		ob.Undecided("shape", "no call of the user-key encoder found")
+	}
+	ob.NeedFloor(1)
 }
